@@ -936,6 +936,12 @@ def dissolve_namedtuples(tree, ref):
             producers[f_.name] = kinds.pop()
     typed = {}
     for q_, f_ in functions(tree):
+        for a_ in f_.args.posonlyargs + f_.args.args + f_.args.kwonlyargs:
+            ann_ = a_.annotation
+            if isinstance(ann_, ast.Constant) and isinstance(ann_.value, str):
+                ann_ = ast.Name(id=ann_.value.strip(), ctx=ast.Load())
+            if isinstance(ann_, ast.Name) and ann_.id in new_nt:
+                typed[(id(f_), a_.arg)] = ann_.id              # an annotated parameter (annotations are claims of the author; the tests run with them)
         for st_ in _own_walk(f_):
             if isinstance(st_, ast.Assign) and len(st_.targets) == 1 and isinstance(st_.targets[0], ast.Name):
                 v_ = st_.value
@@ -945,6 +951,11 @@ def dissolve_namedtuples(tree, ref):
                 if k_ is None and isinstance(v_, ast.Call) and (_txt(v_.func).split('.')[-1] in producers):
                     k_ = producers[_txt(v_.func).split('.')[-1]]
                 key_ = (id(f_), st_.targets[0].id)
+                if isinstance(v_, ast.Constant) and v_.value is None:
+                    continue                                   # "no record": says nothing about the kind
+                if k_ is None and isinstance(v_, ast.Call) and isinstance(v_.func, ast.Attribute) and v_.func.attr == '_replace' and isinstance(v_.func.value, ast.Name) and \
+                        v_.func.value.id == st_.targets[0].id and typed.get(key_):
+                    continue                                   # r = r._replace(..) keeps the kind
                 typed[key_] = k_ if (key_ not in typed or typed[key_] == k_) else None
     fn_of = {}
     for q_, f_ in functions(tree):
@@ -955,6 +966,15 @@ def dissolve_namedtuples(tree, ref):
         def visit_Call(self, n):
             self.generic_visit(n)
             nm = n.func.id if isinstance(n.func, ast.Name) else None
+            f_ = fn_of.get(id(n))
+            if isinstance(n.func, ast.Attribute) and n.func.attr == '_replace' and isinstance(n.func.value, ast.Name) and f_ is not None and \
+                    typed.get((id(f_), n.func.value.id)) and not n.args and all(k.arg for k in n.keywords):
+                fields_ = [x for x, _ in new_nt[typed[(id(f_), n.func.value.id)]]]
+                kw_ = {k.arg: k.value for k in n.keywords}
+                if set(kw_) <= set(fields_):
+                    cnt[0] += 1
+                    return ast.copy_location(ast.Tuple(elts=[kw_[x] if x in kw_ else ast.Subscript(value=ast.Name(id=n.func.value.id, ctx=ast.Load()), slice=ast.Constant(value=i_), ctx=ast.Load())
+                                                             for i_, x in enumerate(fields_)], ctx=ast.Load()), n)
             if nm in new_nt and not any(isinstance(a, ast.Starred) for a in n.args) and all(k.arg for k in n.keywords):
                 fields = new_nt[nm]
                 vals = list(n.args)
@@ -1159,6 +1179,78 @@ def undo_dispatch_tables(tree, ref):
                             total += 1
                             continue
                     i += 1
+    if total:
+        ast.fix_missing_locations(tree)
+    return total
+
+
+def scalarise_records(tree, ref):
+    """A local bound once to K(args) where K is a NEW class that is nothing but a record (its __init__ only stores its parameters /
+    literals in attributes; no other methods), and that is only ever used as `v.attr` in that function (never passed on, returned or
+    stored): each attribute is a local of its own (`v.hit` -> `v_hit`), initialised the way __init__ does it."""
+    if 'classes' not in ref:
+        return 0
+    known = set(ref.get('classes', []))
+    recs = {}
+    for st in tree.body:
+        if not isinstance(st, ast.ClassDef) or st.name in known or st.bases and any(_txt(b) not in ('object',) for b in st.bases):
+            continue
+        fns = [x for x in st.body if isinstance(x, ast.FunctionDef)]
+        if len(fns) != 1 or fns[0].name != '__init__' or fns[0].args.vararg or fns[0].args.kwarg:
+            continue
+        other = [x for x in st.body if not isinstance(x, ast.FunctionDef) and not _has_doc([x]) and not (isinstance(x, ast.Assign) and _txt(x.targets[0]) == '__slots__')
+                 and not isinstance(x, ast.AnnAssign)]
+        if other:
+            continue
+        init = fns[0]
+        fields = []
+        ok = True
+        for x in init.body:
+            if _has_doc([x]):
+                continue
+            if isinstance(x, ast.Assign) and len(x.targets) == 1 and isinstance(x.targets[0], ast.Attribute) and isinstance(x.targets[0].value, ast.Name) and \
+                    x.targets[0].value.id == 'self' and _harmless(x.value) and not any(isinstance(n, ast.Name) and n.id == 'self' for n in ast.walk(x.value)):
+                fields.append((x.targets[0].attr, x.value))
+            else:
+                ok = False
+        if ok and fields:
+            recs[st.name] = (init, fields)
+    if not recs:
+        return 0
+    total = 0
+    for q, fn in functions(tree):
+        stores = _stores(fn)
+        for block in _blocks(fn):
+            for i, st in enumerate(block):
+                if not (isinstance(st, ast.Assign) and len(st.targets) == 1 and isinstance(st.targets[0], ast.Name) and isinstance(st.value, ast.Call) and
+                        isinstance(st.value.func, ast.Name) and st.value.func.id in recs and stores.get(st.targets[0].id) == 1):
+                    continue
+                v = st.targets[0].id
+                init, fields = recs[st.value.func.id]
+                # every other occurrence of v is  v.<field>
+                occ = [n for n in ast.walk(fn) if isinstance(n, ast.Name) and n.id == v and n is not st.targets[0]]
+                attr_parents = [n for n in ast.walk(fn) if isinstance(n, ast.Attribute) and isinstance(n.value, ast.Name) and n.value.id == v]
+                if len(occ) != len(attr_parents) or any(a.attr not in {f for f, _ in fields} for a in attr_parents):
+                    continue
+                b = _bind(init, st.value, skip_first=True)
+                if b is None or b[1]:
+                    continue
+                names = {f: '%s_%s' % (v, f) for f, _ in fields}
+                if any(nm in stores for nm in names.values()):
+                    continue
+                sub = _Subst(b[0])
+                lead = [ast.copy_location(ast.Assign(targets=[ast.Name(id=names[f], ctx=ast.Store())], value=sub.visit(copy.deepcopy(val)), lineno=st.lineno), st) for f, val in fields]
+
+                class T(ast.NodeTransformer):
+                    def visit_Attribute(self, n):
+                        if isinstance(n.value, ast.Name) and n.value.id == v:
+                            return ast.copy_location(ast.Name(id=names[n.attr], ctx=n.ctx), n)
+                        self.generic_visit(n)
+                        return n
+                block[i:i + 1] = lead
+                fn.body = [T().visit(x) for x in fn.body]
+                total += 1
+                break
     if total:
         ast.fix_missing_locations(tree)
     return total
@@ -1896,7 +1988,11 @@ def _expand_call(stmt, call, helper, skip_first, caller_names=frozenset()):
     # names the helper binds itself (its locals, and parameters that need a leading assignment) live in their own scope: where the
     # caller uses the same name for something else they get a name of their own
     own = (set(_stores(body)) | {t.id for a in lead for t in a.targets if isinstance(t, ast.Name)}) - set(sub)
-    clash = {n_: '%s__%s' % (n_, helper.name.strip('_')) for n_ in own if n_ in caller_names}
+    # a parameter that is handed the caller's variable of the same name IS that variable (f(pk) with `def f(self, pk)`): no new name
+    hp = [p_.arg for p_ in helper.args.args][1 if skip_first else 0:]
+    same = {p_ for p_, a_ in zip(hp, call.args) if isinstance(a_, ast.Name) and a_.id == p_} | \
+        {k_.arg for k_ in call.keywords if isinstance(k_.value, ast.Name) and k_.value.id == k_.arg}
+    clash = {n_: '%s__%s' % (n_, helper.name.strip('_')) for n_ in own if n_ in caller_names and n_ not in same}
     if clash:
         if any(isinstance(n, (ast.Global, ast.Nonlocal, ast.FunctionDef, ast.ClassDef)) or
                (isinstance(n, ast.Lambda) and any(a.arg in clash for a in n.args.args + n.args.kwonlyargs)) for x in body for n in ast.walk(x)):
@@ -2693,7 +2789,7 @@ def normalise(tree, path, ref_locals, model=None):
                      ('methods', lambda: rename_methods(tree, ref)), ('formats', lambda: restyle_formats(tree, ref)), ('closures', lambda: restore_closures(tree, ref)), ('self', lambda: restore_self(tree, ref)), ('tuples', lambda: split_tuple_bindings(tree, ref)), ('suppress', lambda: expand_suppress(tree, ref)), ('constants', lambda: _constants(tree, ref)),
                      ('observability', lambda: drop_observability(tree, ref)), ('params', lambda: default_new_params(tree, ref) + default_new_params(tree, ref)), ('initliterals', lambda: inline_init_literals(tree, ref)),
                      ('structs', lambda: inline_struct_objects(tree, ref)),
-                     ('helpers', lambda: inline_helpers(tree, ref)), ('decided', lambda: fold_decided_branches(tree, ref)), ('trivia', lambda: drop_trivia(tree, ref)), ('ifexps', lambda: expand_ifexps(tree, ref)), ('boolreturns', lambda: expand_bool_returns(tree, ref)),
+                     ('helpers', lambda: inline_helpers(tree, ref)), ('records', lambda: scalarise_records(tree, ref)), ('decided', lambda: fold_decided_branches(tree, ref)), ('trivia', lambda: drop_trivia(tree, ref)), ('ifexps', lambda: expand_ifexps(tree, ref)), ('boolreturns', lambda: expand_bool_returns(tree, ref)),
                      ('unrolled', lambda: unroll_loops(tree, ref)),
                      ('comprehensions', lambda: expand_comprehensions(tree, ref)),
                      ('temps', lambda: inline_temps(tree, path, ref_locals or {}))):
